@@ -57,6 +57,12 @@ Intended(ev) ==
          << [verb |-> "touch", key |-> W(ev, 1), exptime |-> ev.exp, noreply |-> nr] >>
     [] ev.op = "flush_all" ->
          << [verb |-> "flush_all", delay |-> ev.exp, noreply |-> nr] >>
+    [] ev.op = "stats" ->          \* arguments are validated like keys but never prefixed (the event's prefix is empty)
+         << [verb |-> "stats", keys |-> [i \in DOMAIN ev.keys |-> W(ev, i)], exptime |-> "", noreply |-> FALSE] >>
+    [] ev.op = "cache_memlimit" -> << [verb |-> "cache_memlimit", limit |-> ev.exp, noreply |-> FALSE] >>
+    [] ev.op = "version" -> << [verb |-> "version", noreply |-> FALSE] >>
+    [] ev.op = "quit" -> << [verb |-> "quit", noreply |-> TRUE] >>
+    [] ev.op = "shutdown" -> << [verb |-> "shutdown", graceful |-> ev.graceful, noreply |-> FALSE] >>
     [] OTHER -> << >>
 
 (* the same, in Proto.tla's all-bytes command records *)
@@ -78,6 +84,12 @@ IntendedB(ev) ==
          << [verb |-> "touch", key |-> W(ev, 1), exptime |-> ev.expb, noreply |-> nr] >>
     [] ev.op = "flush_all" ->
          << [verb |-> "flush_all", delay |-> ev.expb, noreply |-> nr] >>
+    [] ev.op = "stats" ->
+         << [verb |-> "stats", keys |-> [i \in DOMAIN ev.keys |-> W(ev, i)], exptime |-> <<>>, noreply |-> FALSE] >>
+    [] ev.op = "cache_memlimit" -> << [verb |-> "cache_memlimit", limit |-> ev.expb, noreply |-> FALSE] >>
+    [] ev.op = "version" -> << [verb |-> "version", noreply |-> FALSE] >>
+    [] ev.op = "quit" -> << [verb |-> "quit", noreply |-> TRUE] >>
+    [] ev.op = "shutdown" -> << [verb |-> "shutdown", graceful |-> ev.graceful, noreply |-> FALSE] >>
     [] OTHER -> << >>
 
 (* multi-key batches on a HashClient are validated and sent key by key *)
